@@ -206,13 +206,28 @@ class Fr:
         atom = bn.quo_ground(lc) if lc != 1 else bn
         if lc != 1:
             num = num.quo_ground(lc)
-        # cancel atoms that also appear in the numerator's factored part (only exact atom matches)
+        # cheap exact cancellation: the new atom divides the numerator (e.g. (w e) / w)
+        if len(atom) == 1:
+            (mono, cf), = atom.terms()
+            idx = [i for i, e in enumerate(mono) if e]
+            if all(all(m[i] >= mono[i] for i in idx) for m in num.keys()):
+                q = num.ring.from_dict({tuple(m[i] - mono[i] for i in range(len(m))): c for m, c in num.terms()})
+                return Fr(q.quo_ground(cf) if cf != 1 else q, a.D, a.sp)
+        elif len(atom) <= 4 and len(num) <= 400:
+            try:
+                q, r = num.div(atom)
+                if r == 0:
+                    return Fr(q, a.D, a.sp)
+            except Exception:
+                pass
         return Fr(num, Fr._mulD(a.D, ((atom, 1),)), a.sp)
 
     def __rtruediv__(a, b):
         return a._lift(b) / a
 
     def __pow__(a, k):
+        if isinstance(k, float) and k == 0.5:
+            return SqrtOf(a)
         assert isinstance(k, (int, np.integer)) and k >= 0
         r = Fr(a.n.ring.one, None, a.sp)
         for _ in range(int(k)):
@@ -252,6 +267,14 @@ class Fr:
     def conjugate(s):
         return s.conj()
 
+    @property
+    def real(s):
+        c = s.conj()
+        return (s + c) * Fr(s.n.ring(tocoef(Fraction(1, 2))), None, s.sp)
+
+    def sqrt(s):
+        return SqrtOf(s)
+
     def nterms(s):
         return len(s.n) + sum(len(a) for a, _ in s.D)
 
@@ -276,6 +299,36 @@ class Fr:
 
     def __repr__(s):
         return f"Fr({str(s.n)[:60]} / {[(str(a)[:30], e) for a, e in s.D]})"
+
+
+class SqrtOf:
+    """formal square root of a field element (only its argument is ever compared); comparisons go to an oracle"""
+    oracle = None
+
+    def __init__(s, arg, factor=1.0):
+        s.arg, s.factor = arg, factor
+
+    def __rmul__(s, c):
+        return SqrtOf(s.arg, s.factor * float(c))
+
+    __mul__ = __rmul__
+
+    def _cmp(s, op, other):
+        if SqrtOf.oracle is None:
+            raise TypeError("ordering of symbolic square roots needs an oracle")
+        return SqrtOf.oracle(op, s, other)
+
+    def __lt__(s, o):
+        return s._cmp("<", o)
+
+    def __gt__(s, o):
+        return s._cmp(">", o)
+
+    def __le__(s, o):
+        return s._cmp("<=", o)
+
+    def __ge__(s, o):
+        return s._cmp(">=", o)
 
 
 class _NI(Exception):
